@@ -31,6 +31,9 @@ namespace Flatten
 open J Analyzer
 
 structure Ext where
+  /-- `spec.ResolveRefWithBase(root, ref, opts)` for a `$ref` into another document: the schema found
+      there, as the library unmarshals it (one resolution step, no expansion) -/
+  resolveRemote : String → Option J := fun _ => none
   mkRef : String → Option String
   jsonName : String → Option String
   goName : String → Option String
@@ -552,6 +555,171 @@ def stripOAIGen (fc : Facts) (x : Ext) (s : St) : Outcome (St × Bool) :=
   let s1 := stripPrepare s
   stripInOrder fc x s1 (s1.ctx.newRefs.map (·.1))
 
+/-! ### importReferences (file references; URLs with a host are not modelled) -/
+
+def hasHost (uri : String) : Bool := Str.containsSub "://" uri
+
+/-- `url.PathUnescape` with the error ignored, as the callers do (`x, _ := url.PathUnescape(s)`) -/
+def unescOrEmpty (s : String) : String := (Str.pathUnescape s).getD ""
+
+/-- `normalize.Path(ref, basePath)` -/
+def normPath (o : Opts) (ref : String) : Outcome String :=
+  let uri := unescOrEmpty ref
+  if hasFragmentOnly ref || Str.hasPrefix "/" uri then .ok uri
+  else if hasHost uri then .err "not modelled: $ref with a host"
+  else
+    match (Str.splitCharL '#' uri.toList).map String.ofList with
+    | [] => .ok uri
+    | p0 :: rest => .ok (String.intercalate "#" (Str.join [Str.dir o.basePath, p0] :: rest))
+
+/-- `normalize.RebaseRef(baseRef, ref)` -/
+def rebaseRef (baseRef ref : String) : Outcome String :=
+  let baseRef := unescOrEmpty baseRef
+  let ref := unescOrEmpty ref
+  if baseRef = "" ∨ baseRef = "." ∨ Str.hasPrefix "#" baseRef then .ok ref
+  else
+    let parts := Str.cutHash ref
+    let baseParts := Str.cutHash baseRef
+    if Str.hasPrefix "#" ref then .ok (baseParts.1 ++ "#" ++ parts.2.getD "")
+    else if hasHost parts.1 || hasHost baseParts.1 then .err "not modelled: $ref with a host"
+    else if Str.hasPrefix "/" parts.1 then .ok ref
+    else
+      let relPath := Str.join [Str.dir baseParts.1, "/" ++ parts.1]
+      match parts.2 with
+      | some frag => .ok (relPath ++ "#" ++ frag)
+      | none => .ok relPath
+
+/-- `nameFromRef(ref, opts)` before mangling -/
+def rawNameFromRef (ref : String) : Outcome String :=
+  let parts := Str.cutHash ref
+  let frag := match parts.2 with | some f => unescOrEmpty f | none => ""
+  if frag ≠ "" then .ok (Str.base frag)
+  else
+    let pth := unescOrEmpty parts.1
+    if hasHost pth then .err "not modelled: $ref with a host"
+    else if pth ≠ "" then
+      let bn := Str.base pth
+      if bn ≠ "" ∧ bn ≠ "/" then
+        let e := Str.ext bn
+        .ok (if e ≠ "" then String.ofList (bn.toList.take (bn.toList.length - e.toList.length)) else bn)
+      else .ok ""
+    else .ok ""
+
+/-- `replace.UpdateRef(sch, key, ref)` on a schema root (`*spec.Schema`): keys are those of
+    `analyzeSchema("", sch, "/")` -/
+def updateRefInSchema (sch : J) (key ref : String) : Outcome J :=
+  if key = "#/" then .ok (sch.set "$ref" (.str ref))
+  else
+    let toks := Replace.keyTokens key
+    match Replace.walk .schemaPtr sch toks with
+    | none => .err "pointer does not resolve"
+    | some (node, kind) =>
+      match kind with
+      | .schemaVal => (match Replace.setAt sch toks (Replace.refNode ref) with | some d' => .ok d' | none => .err "no parent")
+      | .schemaPtr | .notPtr | .schemaOrArray | .schemaOrBool =>
+        (match Replace.setAt sch toks (node.set "$ref" (.str ref)) with | some d' => .ok d' | none => .err "no parent")
+      | _ => .err "no schema with ref"
+
+structure RevIdx where
+  ref : String
+  keys : List String
+
+/-- `sortref.ReverseIndex(schemas, basePath)`: schema `$ref`s grouped by normalised target -/
+def reverseIndex (o : Opts) (schemas : List (String × String)) : Outcome (List (String × RevIdx)) :=
+  schemas.foldlM (fun (acc : List (String × RevIdx)) kv => do
+    let np ← normPath o kv.2
+    match acc.lookup np with
+    | some _ => pure (acc.map fun p => if p.1 = np then (p.1, { p.2 with keys := p.2.keys ++ [kv.1] }) else p)
+    | none => pure (acc ++ [(np, { ref := kv.2, keys := [kv.1] })])) []
+
+def setResolved (k v : String) : List (String × String) → List (String × String)
+  | [] => [(k, v)]
+  | (k', v') :: rest => if k' = k then (k, v) :: rest else (k', v') :: setResolved k v rest
+
+/-- `importNewRef(entry, refStr, opts)` -/
+def importNewRef (fc : Facts) (x : Ext) (o : Opts) (st : St) (refStr : String) (entry : RevIdx) : Outcome St := do
+  let sch ← (match x.resolveRemote entry.ref with
+    | some sc => pure sc
+    | none => need "resolve" entry.ref)
+  let inner := allRefs (Analyzer.analyzeSchema "" sch "/")
+  let sch ← inner.foldlM (fun s kv => do
+    let rb ← rebaseRef entry.ref kv.2
+    let r ← ask "mkRef" x.mkRef rb
+    match updateRefInSchema s kv.1 r with
+    | .ok s' => pure s'
+    | _ => Outcome.err "cannot rewrite ref") sch
+  let raw ← rawNameFromRef entry.ref
+  let nm ← (if o.keepNames then pure raw else ask "jsonName" x.jsonName raw)
+  let (newName, isOAIGen) ← uniqify fc x (defNames st.doc) nm
+  let target := Str.join ["#/definitions", newName]
+  let ref ← ask "mkRef" x.mkRef target
+  let st1 : St := { st with ctx := { st.ctx with resolved := setResolved refStr newName st.ctx.resolved } }
+  let st2 ← entry.keys.foldlM (fun (s : St) key => do
+    let d ← Replace.updateRef s.doc key ref
+    let resolved := match getNR key s.ctx.newRefs with
+      | some r => r.resolved
+      | none => false
+    let nr : NewRef := { key := key, newName := newName, path := target, isOAIGen := isOAIGen,
+                         resolved := resolved, schema := sch, parents := [] }
+    pure { s with doc := d, ctx := { s.ctx with newRefs := setNR key nr s.ctx.newRefs } }) st1
+  pure { st2 with doc := save st2.doc newName sch }
+
+/-- the bookkeeping loop at the end of `importExternalReferences` -/
+def maintainNewRefs (x : Ext) (st : St) : Outcome St :=
+  (st.ctx.newRefs.map (·.1)).foldlM (fun (s : St) k => do
+    match getNR k s.ctx.newRefs with
+    | none => pure s
+    | some r =>
+      let r ← (if Doc.refStr r.schema ≠ "" then
+          match x.refTokens r.path with
+          | none => need "refTokens" r.path
+          | some toks =>
+            match Spec.Pointer.get s.doc toks with
+            | some (.obj kvs) => pure { r with schema := .obj kvs }
+            | _ => Outcome.err "could not resolve schema"
+        else pure r)
+      if r.path = k then pure { s with ctx := { s.ctx with newRefs := setNR k r s.ctx.newRefs } }
+      else do
+        let renamed : NewRef := { r with key := r.path }
+        let pref ← ask "mkRef" x.mkRef r.path
+        let indirect : NewRef := { r with newName := Str.base k, schema := Replace.refNode pref, path := k,
+                                          isOAIGen := Str.containsSub "OAIGen" k }
+        pure { s with ctx := { s.ctx with newRefs := setNR k indirect (setNR r.path renamed s.ctx.newRefs) } }) st
+
+/-- `importExternalReferences(opts)`: the state after one round and whether nothing was left to import -/
+def importExternalReferences (fc : Facts) (x : Ext) (o : Opts) (s : St) : Outcome (St × Bool) := do
+  let grouped ← reverseIndex o (refMap (· = "schema") s.idx)
+  let sorted := (grouped.map (·.1)).mergeSort strLe
+  let (s1, complete) ← sorted.foldlM (fun (acc : St × Bool) refStr => do
+    match grouped.lookup refStr with
+    | none => pure acc
+    | some entry =>
+      if hasFragmentOnly entry.ref then pure acc
+      else
+        match (acc.1.ctx.resolved.lookup refStr) with
+        | some newName =>
+          if newName ≠ "" then do
+            -- `importKnownRef`
+            let ref ← ask "mkRef" x.mkRef (Str.join ["#/definitions", newName])
+            let d ← entry.keys.foldlM (fun d key => Replace.updateRef d key ref) acc.1.doc
+            pure ({ acc.1 with doc := d }, false)
+          else do
+            let st ← importNewRef fc x o acc.1 refStr entry
+            pure (st, false)
+        | none => do
+          let st ← importNewRef fc x o acc.1 refStr entry
+          pure (st, false)) (s, true)
+  let s2 ← maintainNewRefs x s1
+  pure (s2, complete)
+
+/-- `importReferences(opts)` -/
+def importReferences (fc : Facts) (x : Ext) (o : Opts) : Nat → St → Outcome St
+  | 0, _ => .outOfFuel
+  | fuel + 1, s => do
+    let (s1, complete) ← importExternalReferences fc x o s
+    let s2 := reload fc s1
+    if complete then pure s2 else importReferences fc x o fuel s2
+
 /-! ### the pipeline after `expand`, for documents whose schema `$ref`s are all local -/
 
 /-- `importReferences` when no schema `$ref` is remote: one round of `importExternalReferences`
@@ -585,6 +753,16 @@ def flattenLocal (fc : Facts) (x : Ext) (o : Opts) (fuel : Nat) (s : St) : Outco
   let s1 ← normalizeRef fc x o s
   let s2 := if o.removeUnused then removeUnusedShared fc s1 else s1
   let s3 ← importReferencesLocal fc s2
+  let s4 ← (if !o.minimal && !o.expand then nameInlinedSchemas fc x o s3 else pure s3)
+  let s5 ← stripPointersAndOAIGen fc x o fuel s4
+  if o.removeUnused then removeUnused fc x s5 else pure s5
+
+/-- `Flatten(opts)` from the state reached after `expand` to the end, in Minimal or full mode, remote
+    (file) schema references included: `flattenLocal` with the real `importReferences` loop -/
+def flatten (fc : Facts) (x : Ext) (o : Opts) (fuel : Nat) (s : St) : Outcome St := do
+  let s1 ← normalizeRef fc x o s
+  let s2 := if o.removeUnused then removeUnusedShared fc s1 else s1
+  let s3 ← importReferences fc x o fuel s2
   let s4 ← (if !o.minimal && !o.expand then nameInlinedSchemas fc x o s3 else pure s3)
   let s5 ← stripPointersAndOAIGen fc x o fuel s4
   if o.removeUnused then removeUnused fc x s5 else pure s5
